@@ -94,6 +94,15 @@ IsTag(e) == \/ e.k = "var"
             \/ e.k = "lit" /\ e.v.k \in {"int", "nil", "t"} /\ (("q" \in DOMAIN e) => e.q = 0)
 Stmts(body) == SelectSeq(body, LAMBDA e : ~IsTag(e))
 TagStmt(e) == IF IsTag(e) THEN [k |-> "lit", v |-> Nil] ELSE e          \* a statement of a tagbody that is itself a tag does nothing
+\* the body of a loop as the statements of a tagbody: a tag labels the statement after it (or nothing, at the end)
+RECURSIVE AsStmts(_)
+AsStmts(body) ==
+  IF body = <<>> THEN <<>>
+  ELSE IF IsTag(body[1]) /\ body[1].k = "var"
+       THEN (IF Len(body) >= 2 /\ ~IsTag(body[2]) THEN <<[tag |-> body[1].n, e |-> body[2]]>> \o AsStmts(SubSeq(body, 3, Len(body)))
+             ELSE <<[tag |-> body[1].n, e |-> [k |-> "lit", v |-> Nil]]>> \o AsStmts(Tail(body)))
+  ELSE <<[tag |-> "", e |-> body[1]]>> \o AsStmts(Tail(body))
+HasTags(body) == \E i \in 1..Len(body) : IsTag(body[i]) /\ body[i].k = "var"
 Idx(j) == SubSeq("0123456789", j + 1, j + 1)      \* name of element j of a vector (vectors of the generator have at most 10 elements)
 RECURSIVE Tails(_)
 Tails(es) == IF es = <<>> THEN <<>> ELSE <<ListV(es)>> \o Tails(Tail(es))
@@ -229,6 +238,9 @@ StepEval(m) ==
               ELSE Ev(Push(m0, [k |-> "doinit", n |-> n, i |-> 1, acc |-> <<>>, env |-> 0, outer |-> e0]), n.vars[1].init, e0)
     [] OTHER -> Err(m, "machine-stuck-at-node-" \o n.k)
 
+\* the body of dolist / dotimes / do / do* is a tagbody: a go inside it reaches a tag of the body (and the iteration goes on
+\* from there); without tags it is the sequence of its statements
+LoopBody(m, body, env) == IF HasTags(body) THEN Ev(m, [k |-> "tagbody", stmts |-> AsStmts(body)], env) ELSE Body(m, Stmts(body), env)
 \* the loop machinery shared by dolist / dotimes: iteration j over items, each in a fresh frame binding var
 LoopNext(m1, fr) ==
   IF fr.items = <<>>
@@ -236,7 +248,7 @@ LoopNext(m1, fr) ==
        LET m2 == NewFrame(m1, fr.env, <<[n |-> fr.var, v |-> fr.last]>>) IN
        Ev(Push(m2, [k |-> "loopres"]), fr.res, Top(m2))
   ELSE LET m2 == NewFrame(m1, fr.env, <<[n |-> fr.var, v |-> fr.items[1]]>>) IN
-       Body(Push(m2, [fr EXCEPT !.items = Tail(fr.items)]), Stmts(fr.body), Top(m2))
+       LoopBody(Push(m2, [fr EXCEPT !.items = Tail(fr.items)]), fr.body, Top(m2))
 RECURSIVE Upto(_, _)
 Upto(i, n) == IF i >= n THEN <<>> ELSE <<IntV(i)>> \o Upto(i + 1, n)
 DoVarsFrame(n, vals) == [j \in 1..Len(n.vars) |-> [n |-> n.vars[j].n, v |-> vals[j]]]
@@ -386,7 +398,7 @@ StepRet(m) ==
                    Ev(Push(m2, [k |-> "dotest", n |-> n, env |-> Top(m2)]), n.test, Top(m2))
               ELSE Ev(Push(m1, [fr EXCEPT !.i = fr.i + 1, !.acc = acc]), n.vars[fr.i + 1].init, fr.outer)
     [] fr.k = "dotest" -> IF IsTrue(v) THEN Body(m1, fr.n.res, fr.env)     \* values of the result forms leave through the block frame
-                          ELSE Body(Push(m1, [k |-> "dobody", n |-> fr.n, env |-> fr.env]), Stmts(fr.n.body), fr.env)
+                          ELSE LoopBody(Push(m1, [k |-> "dobody", n |-> fr.n, env |-> fr.env]), fr.n.body, fr.env)
     [] fr.k = "dobody" -> IF Len(fr.n.vars) = 0 THEN Ev(Push(m1, [k |-> "dotest", n |-> fr.n, env |-> fr.env]), fr.n.test, fr.env)
                           ELSE Ev(Push(m1, [k |-> "dostep", n |-> fr.n, i |-> 1, acc |-> <<>>, env |-> fr.env]), fr.n.vars[1].step, fr.env)
     [] fr.k = "dostep" ->
